@@ -4,7 +4,8 @@
   Property theorems only.  Model: Cello/Dispatch.lean (Type_Scan, Type_Instance with the Type_Cache_Entry list,
   Type_Implements, Type_Method_At_Offset, Type_Implements_Method_At_Offset, Type_Of, cast, Type_New word by word on a
   storage with any previous contents, re-construction in place; the small-step machine of one lookup as a sequence of
-  atomic word accesses).  Spec: `declared` = the instance of the first triple with
+  atomic word accesses; the heap of several type objects whose class objects are themselves re-constructible, deletable
+  type objects with memoised addresses).  Spec: `declared` = the instance of the first triple with
   the class's name; `specObs` = what each lookup must return as a function of the declaration only.
   Source-derived facts: CelloGen/Disp.lean (Type_Cache_Entry table, CELLO_CACHE_NUM, CELLO_NBUILTINS, the declared
   matrix of every Cello(…) object, the texts of the modelled functions).  Lemmas: CelloProofs/Lemmas/Disp*.lean.
@@ -17,6 +18,7 @@ import CelloProofs.Lemmas.DispWorld
 import CelloProofs.Lemmas.DispSolo
 import CelloProofs.Lemmas.DispLive
 import CelloProofs.Lemmas.DispNew
+import CelloProofs.Lemmas.DispHeap
 
 namespace Cello.Dispatch
 
@@ -248,11 +250,29 @@ theorem C08_partial_cache_clear_refuted :
     (constructIn layoutNow warm "Foo" 8 [("Hash", A')]).1.trec.cache[6]? = some none := by
   decide +kernel
 
-/-- `Type_New` refuses more than `CELLO_MAX_INSTANCES` instances and otherwise builds exactly the record of its arguments -/
-theorem C08_type_new (es : List (String × Inst)) :
-    typeNew CelloGen.Disp.cacheNum CelloGen.Disp.maxInstances es =
-      if es.length > CelloGen.Disp.maxInstances then .raised .OutOfMemoryError
-      else .ok (mkType CelloGen.Disp.cacheNum true es) := rfl
+/-- the record-level `typeNew` (used wherever only the record matters) is the word-level `Type_New` run on the calloc'ed
+    storage of `Type_Alloc`, read back as a record: at most `CELLO_MAX_INSTANCES` instances give the fresh record of the
+    argument list on both levels, more are refused with OutOfMemoryError on both levels -/
+theorem C08_type_new (name : String) (size : Nat) (es : List (String × Inst)) :
+    (es.length ≤ CelloGen.Disp.maxInstances →
+      typeNew CelloGen.Disp.cacheNum CelloGen.Disp.maxInstances es = .ok (mkType CelloGen.Disp.cacheNum true es) ∧
+      (constructAt layoutNow true false zeroStorage name size es).1.map (·.trec) = some (mkType CelloGen.Disp.cacheNum true es)) ∧
+    (CelloGen.Disp.maxInstances < es.length →
+      typeNew CelloGen.Disp.cacheNum CelloGen.Disp.maxInstances es = .raised .OutOfMemoryError ∧
+      (typeNewRaw layoutNow zeroStorage name size es).2 = .raised .OutOfMemoryError) := by
+  have hlen : zeroStorage.length = 3 * layoutNow.cells := by simp [zeroStorage]
+  have sp := C08_type_new_any_storage slotsNow true false zeroStorage name size es hlen
+  constructor
+  · intro hn
+    refine ⟨?_, ?_⟩
+    · unfold typeNew
+      rw [if_neg (by omega)]
+    · rw [(sp.1 hn).2.1]; rfl
+  · intro hn
+    refine ⟨?_, ?_⟩
+    · unfold typeNew
+      rw [if_pos hn]
+    · rw [sp.2 hn]
 
 /-- `implements` / `implements_method` agree with `instance` / `method` on every reachable state: the class is
     implemented iff `instance` is non-NULL; the member is implemented iff the method lookup succeeds. -/
@@ -376,17 +396,205 @@ theorem C08_cast_terminal_refuted :
     (castW ⟨0, "Cast"⟩ w (.obj .good 2) 1).2 = .raised .FormatError ∧
     (castW ⟨0, "Cast"⟩ w (.obj .good 2) 2).2 = .ok .self := by decide
 
-/-- a NULL, freed or foreign `self` is refused with ValueError by every object-level lookup and by cast, before any
-    lookup happens; a well-formed object that is not a type object is refused with TypeError by `Type_Scan`. -/
-theorem C08_bad_self (w : World) (cls castCls : Cls) (tid ty : Nat) :
+/-- **A well-formed object that is not a type object, used where a type is expected** (`type_instance(obj, cls)`,
+    `type_implements(obj, cls)`): `Type_Scan` refuses it with TypeError — but `Type_Instance` reaches `Type_Scan` only for
+    classes WITHOUT a cache slot.  For a class with a cache slot it first reads `((var*)self)[i]`, a word of (or past) the
+    object's own body, and returns it when it is not NULL: no exception, an arbitrary word as "the instance" — `ub` in the
+    model.  The two routes differ for the same misuse; the property's "instead of invoking anything" is about absent
+    classes and members of a TYPE, so this is outside its quantifier, and no lookup of that kind is generated
+    (`assumptions` of the evidence). -/
+theorem C08_bad_self (w : World) (cls : Cls) (tid : Nat) (hne : tid ≠ w.theType) :
+    (typeScanW w (.obj .good tid) cls).2 = .raised (thrown .TypeError [w.isSentinel tid]) ∧
+    (slotOf w.slots cls = none → (typeInstanceW w (.obj .good tid) cls).2 = .raised (thrown .TypeError [w.isSentinel tid])) ∧
+    (slotOf w.slots cls ≠ none → (typeInstanceW w (.obj .good tid) cls).2 = .ub) := by
+  have h1 : (typeScanW w (.obj .good tid) cls).2 = .raised (thrown .TypeError [w.isSentinel tid]) := by
+    simp [typeScanW, typeOfW, hne]
+  refine ⟨h1, ?_, ?_⟩
+  · intro hn
+    simp only [typeInstanceW, hn]
+    exact h1
+  · intro hn
+    cases hso : slotOf w.slots cls with
+    | none => exact absurd hso hn
+    | some p => simp only [typeInstanceW, hso]
+
+/-- evaluations of the model's `Type_Of` (not counted as proof obligations): a NULL, freed or foreign `self` is refused
+    with ValueError by every object-level lookup and by cast, before any lookup happens -/
+example (w : World) (cls castCls : Cls) (tid ty : Nat) :
     (instanceW w .null cls).2 = .raised .ValueError ∧ (castW castCls w .null ty).2 = .raised .ValueError ∧
     (instanceW w (.obj .dead tid) cls).2 = .raised .ValueError ∧ (castW castCls w (.obj .dead tid) ty).2 = .raised .ValueError ∧
     (instanceW w (.obj .bad tid) cls).2 = .raised .ValueError ∧ (castW castCls w (.obj .bad tid) ty).2 = .raised .ValueError ∧
-    (implementsW w .null cls).2 = .raised .ValueError ∧ (methodAtW w .null cls 0).2 = .raised .ValueError ∧
-    (tid ≠ w.theType → (typeScanW w (.obj .good tid) cls).2 = .raised (thrown .TypeError [w.isSentinel tid])) := by
-  refine ⟨rfl, rfl, rfl, rfl, rfl, rfl, rfl, rfl, ?_⟩
-  intro hne
-  simp [typeScanW, typeOfW, hne]
+    (implementsW w .null cls).2 = .raised .ValueError ∧ (methodAtW w .null cls 0).2 = .raised .ValueError :=
+  ⟨rfl, rfl, rfl, rfl, rfl, rfl, rfl, rfl⟩
+
+/-- Non-vacuity of the third conjunct of `C08_bad_self`, on the table of the current source: `Size` has a cache slot -/
+example : slotOf slotsNow ⟨0, "Size"⟩ ≠ none ∧ slotOf slotsNow ⟨0, "Show"⟩ = none := by decide
+
+/-- **NULL as the class argument** (misuse; NULL is not a class, so this is outside "every class" — stated so that the
+    audited file says what the code does).  `Type_Scan(T, NULL)`'s pointer loop matches the first triple whose `cls` word
+    is still NULL: on a record with at least one un-memoised triple `type_instance(T, NULL)` returns that triple's
+    instance (and `type_implements(T, NULL)` is true) without any exception; the answer moves as lookups memoise
+    triples; once every triple is memoised the name loop reads through the NULL pointer (`ub`); an empty type answers
+    NULL.  No lookup with a NULL class is generated except the harness probe `E nullcls` on records where the answer is
+    defined. -/
+theorem C08_null_class (n : Nat) (hdr sent : Bool) (p : String × Inst) (es : List (String × Inst)) :
+    (scanNull (mkType n hdr (p :: es) sent)).2 = .ok (some p.2) ∧
+    (scanNull (mkType n hdr [] sent)).2 = .ok none ∧
+    (∀ t : TypeRec, t.entries ≠ [] → (∀ e ∈ t.entries, e.memo ≠ none) → (scanNull t).2 = .ub) := by
+  refine ⟨rfl, rfl, ?_⟩
+  intro t hne hall
+  unfold scanNull
+  have hf : t.entries.find? (fun e => e.memo.isNone) = none := by
+    rw [List.find?_eq_none]
+    intro e he
+    have := hall e he
+    cases hm : e.memo with
+    | none => exact absurd hm this
+    | some c => simp
+  simp only [hf]
+  cases hes : t.entries with
+  | nil => exact absurd hes hne
+  | cons e rest => rfl
+
+/-- the answer for a NULL class depends on the history: the same type answers with its first triple when cold, with its
+    second triple after the first one was looked up, and reads through NULL once both are memoised -/
+example :
+    let t := mkType CelloGen.Disp.cacheNum true [("Show", ⟨1, [true]⟩), ("Doc", ⟨2, [true]⟩)]
+    let t1 := (scan t ⟨0, "Show"⟩).1
+    let t2 := (scan t1 ⟨0, "Doc"⟩).1
+    (scanNull t).2 = .ok (some ⟨1, [true]⟩) ∧ (scanNull t1).2 = .ok (some ⟨2, [true]⟩) ∧ (scanNull t2).2 = .ub := by
+  decide
+
+/-! ## several type objects; class objects that are re-constructed, deleted, replaced at the same address; cast histories -/
+
+/-- **cast of a type object** (`cast(Int, Type)`, `cast(Int, Int)`): `type_of` of a type object is `Type`, the `Cast` lookup
+    happens in `Type`'s own record, and the answer is `self` exactly when the requested type is `Type` (ValueError for any
+    other, the type's own `cast` member if `Type` had one) — in every world whose records satisfy the invariant. -/
+theorem C08_cast_type_object (w : World) (hs : w.slots = slotsNow)
+    (hall : ∀ x t, w.get x = some t → Inv (declared t.entries) w.slots CelloGen.Disp.cacheNum t)
+    (tid ty : Nat) (t tT : TypeRec) (hget : w.get tid = some t) (hgetT : w.get w.theType = some tT) :
+    (castW castClsLib w (.typeObj tid) ty).2 = specCast (declared tT.entries) tT.sentinel (w.isSentinel ty) w.theType ty := by
+  have hso : SlotsOK w.slots CelloGen.Disp.cacheNum := by rw [hs]; exact C08_slots_ok
+  exact (castW_typeObj_spec hso hall hget hgetT ty).1
+
+/-- **value equality of class values is pointer equality.**  The model writes a class pointer as the value
+    "address + `__Name` of the object living there now".  In every heap that satisfies `Coherent` (part of `HeapOK`, preserved
+    by `C08_world_history`), for every `cls` word `c` of every record and every class `cls` a reference denotes now:
+    `c = cls` (what `scanPtr` tests) holds exactly when the addresses are equal (what `t->cls is cls` tests). -/
+theorem C08_ptr_eq_is_value_eq (h : Heap) (hc : Coherent h) (tid : Nat) (t : TypeRec) (hget : h.w.get tid = some t)
+    (c : Cls) (hmem : c ∈ memosOf t) (r : CRef) (cls : Cls) (hr : h.resolve r = some cls) : ptrEq c cls ↔ c = cls :=
+  ptrEq_iff_eq hc hget hmem hr
+
+/-- the record that the heap-level construction installs at an address is the record the word-level `Type_New` leaves
+    there: from ANY words on fresh or re-used storage (`constructAt`), and from the words of the live incarnation when a
+    type object is re-constructed in place (`constructIn`) -/
+theorem C08_heap_construct_is_type_new (h : Heap) (addr : Nat) (name : String) (size : Nat) (es : List (String × Inst))
+    (hn : es.length ≤ CelloGen.Disp.maxInstances) :
+    (∀ mem : List Word, mem.length = 3 * layoutNow.cells → h.w.get addr = none →
+      ((h.construct layoutNow addr name es).1.w.get addr) = (constructAt layoutNow true false mem name size es).1.map (·.trec)) ∧
+    (∀ s : Store, s.toRaw.length = 3 * layoutNow.cells → h.w.get addr = some s.trec →
+      ((h.construct layoutNow addr name es).1.w.get addr) = some (constructIn layoutNow s name size es).1.trec) := by
+  have hbig : ¬ es.length > layoutNow.maxInstances := by show ¬ es.length > CelloGen.Disp.maxInstances; omega
+  constructor
+  · intro mem hlen hget
+    rw [((C08_type_new_any_storage slotsNow true false mem name size es hlen).1 hn).2.1]
+    simp only [Heap.construct, hbig, if_false, hget, get_put_same]
+    rfl
+  · intro s hlen hget
+    rw [((C08_reconstruct_in_place slotsNow s name size es hlen).1 hn).2.1]
+    simp only [Heap.construct, hbig, if_false, hget, get_put_same]
+    rfl
+
+/-- **C08 over several type objects (histories with class life cycles and casts).**  For the table and layout of the current
+    source, every heap of type objects — statically declared ones and run-time ones, any of which may serve as a CLASS of
+    others — that satisfies `HeapOK` (every record satisfies the lookup invariant relative to its own declaration; every
+    memoised class pointer points at a live class object that still carries the memoised name, or at a dead one), and every
+    **history** of: lookups through the four type-level entry points on any type with any class reference (a library class,
+    or "the type object at address a", whose name is read WHEN the lookup runs), white-box resets, casts of objects and of
+    type objects, constructions of new type objects (on fresh addresses or on the address of a deleted one),
+    re-constructions in place (of types and of type objects used as classes), deletions — provided the history is `safe`:
+    whenever `Type_New` writes a NAME at an address, every memoised class pointer that holds this address already reads as a
+    class of that name (no record memoises the address — never looked up through, or caches reset — or the type object keeps
+    its name).  Then every lookup answers `specObs` of the declaration in force for that type and of the class's CURRENT
+    name, every cast answers `specCast`, constructions succeed exactly up to CELLO_MAX_INSTANCES, a dead type or class gives
+    `ub`; `specHeap` is a function of declarations and names only — not of which lookups happened before.  `HeapOK` holds
+    again at the end.  `safe` is executable and is evaluated on the states of the history itself; what happens outside
+    it is the known finding KF-C08-class-memo-stale (`C08_memo_stale_refuted`). -/
+theorem C08_world_history (h : Heap) (hs : h.w.slots = slotsNow) (hok : HeapOK CelloGen.Disp.cacheNum h) (ops : List HOp)
+    (hsafe : Heap.safe layoutNow h ops = true) :
+    (Heap.run layoutNow h ops).2 = specHeap CelloGen.Disp.maxInstances h.w.theType h.abs ops ∧
+    HeapOK CelloGen.Disp.cacheNum (Heap.run layoutNow h ops).1 := by
+  have hso : SlotsOK h.w.slots layoutNow.cacheNum := by rw [hs]; exact C08_slots_ok
+  exact Heap.run_spec ops h h.abs hso hok (absRel_self h) hsafe
+
+/-- the full statement: the same without the side condition `safe` -/
+def C08_world_history_statement : Prop :=
+  ∀ (h : Heap) (ops : List HOp), h.w.slots = slotsNow → HeapOK CelloGen.Disp.cacheNum h →
+    (Heap.run layoutNow h ops).2 = specHeap CelloGen.Disp.maxInstances h.w.theType h.abs ops
+
+/-- witness heap of the known finding: `Type` (address 0), a type `T` (address 1) that declares one instance for the class
+    object `K` (address 2, named `Foo`, itself a run-time type object) -/
+def staleHeap : Heap :=
+  { w := { slots := slotsNow, theType := 0,
+           types := [(0, mkType CelloGen.Disp.cacheNum false []), (1, mkType CelloGen.Disp.cacheNum true [("Foo", ⟨7, [true]⟩)]),
+                     (2, mkType CelloGen.Disp.cacheNum true [])] },
+    names := [(1, "T"), (2, "Foo")] }
+
+/-- **Refuted** (known finding KF-C08-class-memo-stale).  `Type_Scan` memoises the ADDRESS of a class object and later
+    answers by address alone; a run-time type object used as a class can be given another name in place (`Type` has no
+    destructor, `Type_New` rewrites `__Name`), or be deleted and its address handed out to another type object.  Witnesses on
+    the model that mirrors the code (and on the real library: corpus/kf_c08_class_renamed.ops):
+    (1) `type_instance(T, K)` (memoised), `destruct(K); construct(K, "Bar")`, `type_instance(T, K)`: still the `Foo` instance,
+    although `T` declares nothing for a class named `Bar` — and the same lookup on the same declaration answers NULL when no
+    lookup came before;  (2) the same with `del(K)` and a new type object named `Beta` on `K`'s address. -/
+theorem C08_memo_stale_refuted : ¬ C08_world_history_statement := by
+  intro hst
+  have hok : HeapOK CelloGen.Disp.cacheNum staleHeap := heapOK_of_okb (by decide +kernel)
+  have := hst staleHeap [.look 1 .inst (.rt 2), .construct 2 "Bar" [], .look 1 .inst (.rt 2)] rfl hok
+  revert this
+  decide +kernel
+
+/-- what the model (= the code) answers on the two witnesses, next to what the declaration says; the rename is exactly the
+    step at which `safe` fails; the cold lookup after the same rename is right -/
+example :
+    let ins : Inst := ⟨7, [true]⟩
+    let rename : List HOp := [.look 1 .inst (.rt 2), .construct 2 "Bar" [], .look 1 .inst (.rt 2), .look 1 .impl (.rt 2)]
+    let aba : List HOp := [.look 1 .impl (.rt 2), .delete 2, .construct 2 "Beta" [("Show", ⟨9, [true]⟩)], .look 1 (.meth 0) (.rt 2)]
+    let cold : List HOp := [.construct 2 "Bar" [], .look 1 .inst (.rt 2)]
+    (Heap.run layoutNow staleHeap rename).2 =
+      [.look (.inst (.ok (some ins))), .constructed (.ok ()), .look (.inst (.ok (some ins))), .look (.bool (.ok true))] ∧
+    specHeap CelloGen.Disp.maxInstances 0 staleHeap.abs rename =
+      [.look (.inst (.ok (some ins))), .constructed (.ok ()), .look (.inst (.ok none)), .look (.bool (.ok false))] ∧
+    (Heap.run layoutNow staleHeap aba).2 = [.look (.bool (.ok true)), .unit, .constructed (.ok ()), .look (.meth (.ok ins))] ∧
+    specHeap CelloGen.Disp.maxInstances 0 staleHeap.abs aba =
+      [.look (.bool (.ok true)), .unit, .constructed (.ok ()), .look (.meth (.raised .ClassError))] ∧
+    Heap.safe layoutNow staleHeap rename = false ∧ Heap.safe layoutNow staleHeap aba = false ∧
+    Heap.safe layoutNow staleHeap cold = true ∧
+    (Heap.run layoutNow staleHeap cold).2 = [.constructed (.ok ()), .look (.inst (.ok none))] := by
+  decide +kernel
+
+/-- Non-vacuity of `C08_world_history`: a `safe` history on the same heap that re-constructs the memoised class object `K`
+    under its OLD name (harmless), renames it after a white-box reset of `T` (harmless: no record memoises it), deletes it
+    and builds another type object on its address, re-constructs `T` itself with an instance for that new class, looks
+    classes up through dead references, and casts objects and type objects — all answered by `specHeap`. -/
+example :
+    let ins : Inst := ⟨7, [true]⟩
+    let ops : List HOp :=
+      [.look 1 .inst (.rt 2), .construct 2 "Foo" [("Cmp", ⟨8, [true]⟩)], .look 1 (.meth 0) (.rt 2), .look 2 .impl (.lib "Cmp"),
+       .reset 1, .construct 2 "Bar" [], .look 1 .inst (.rt 2), .look 1 .inst (.lib "Foo"),
+       .delete 2, .look 1 .inst (.rt 2), .construct 2 "Beta" [], .look 1 .impl (.rt 2),
+       .construct 1 "T" [("Beta", ⟨9, [false]⟩), ("Cast", ⟨10, [false]⟩)], .look 1 (.meth 0) (.rt 2), .look 1 .inst (.rt 2),
+       .cast 1 1, .cast 1 2, .castType 1 0, .castType 2 1, .construct 5 "Big" (List.replicate 257 ("Cmp", ins)), .look 5 .inst (.lib "Cmp")]
+    staleHeap.okb CelloGen.Disp.cacheNum = true ∧ Heap.safe layoutNow staleHeap ops = true ∧
+    (Heap.run layoutNow staleHeap ops).2 =
+      [.look (.inst (.ok (some ins))), .constructed (.ok ()), .look (.meth (.ok ins)), .look (.bool (.ok true)),
+       .unit, .constructed (.ok ()), .look (.inst (.ok none)), .look (.inst (.ok (some ins))),
+       .unit, .ub, .constructed (.ok ()), .look (.bool (.ok false)),
+       .constructed (.ok ()), .look (.meth (.raised .ClassError)), .look (.inst (.ok (some ⟨9, [false]⟩))),
+       .cast (.ok .self), .cast (.raised .ValueError), .cast (.ok .self), .cast (.raised .ValueError),
+       .constructed (.raised .OutOfMemoryError), .ub] ∧
+    (Heap.run layoutNow staleHeap ops).1.okb CelloGen.Disp.cacheNum = true := by
+  decide +kernel
 
 /-! ## concurrency: every interleaving of atomic steps of any number of threads -/
 
@@ -463,30 +671,27 @@ theorem C08_wait_free (slots : List (Nat × Cls)) (t : TypeRec) (pc : PC)
     (step slots t pc).1.entries.length = t.entries.length :=
   step_measure slots t pc hnd hns
 
-/-- **Object-level entry points are the type-level ones on `type_of(self)`**: for a well-formed object whose header names
-    type object `tid`, `instance`/`method`/`implements_method` are `type_instance`/`type_method`/`type_implements_method` of
-    that type object, and those run the record-level functions of the theorems above on the type's record (and store the
-    record back): the results of `C08_lookup_exact`, `C08_classerror_partial`, `C08_concurrent` hold for every entry point. -/
-theorem C08_entry_points (w : World) (tid : Nat) (t : TypeRec) (cls : Cls) (k : Nat) (hget : w.get tid = some t) :
+/-- **The type-level entry points run the record-level functions on the type's record and store the record back**:
+    `type_instance` is `instanceOf`, `type_implements` is `scan`, `type_method` is `methodAt`, `type_implements_method` is
+    `implementsMethodAt` — result, new record of the type, every other type object untouched (`WStep`: same type objects,
+    each related by a record-level step that keeps the invariant).  The object-level entry points are these on
+    `type_of(self)` (next `example`), so `C08_lookup_exact`, `C08_classerror_partial`, `C08_concurrent` and
+    `C08_world_history` speak about every entry point. -/
+theorem C08_entry_points (w : World) (hs : w.slots = slotsNow) (tid : Nat) (t : TypeRec) (hget : w.get tid = some t)
+    (l : Look) (cls : Cls) :
+    (lookW w tid l cls).2 = (applyOp w.slots t (l.op cls)).2 ∧
+    (lookW w tid l cls).1.get tid = some (applyOp w.slots t (l.op cls)).1 ∧
+    WStep CelloGen.Disp.cacheNum cls w (lookW w tid l cls).1 := by
+  have hso : SlotsOK w.slots CelloGen.Disp.cacheNum := by rw [hs]; exact C08_slots_ok
+  have sp := lookW_spec hso hget l cls
+  exact ⟨sp.1, sp.2.2, sp.2.1⟩
+
+/-- evaluations of the model (not counted as proof obligations): for a well-formed object whose header names type object
+    `tid`, `instance`/`method`/`implements_method` are `type_instance`/`type_method`/`type_implements_method` of that type object -/
+example (w : World) (tid : Nat) (cls : Cls) (k : Nat) :
     instanceW w (.obj .good tid) cls = typeInstanceW w (.typeObj tid) cls ∧
     methodAtW w (.obj .good tid) cls k = typeMethodAtW w (.typeObj tid) cls k ∧
-    implementsMethodAtW w (.obj .good tid) cls k = typeImplementsMethodAtW w (.typeObj tid) cls k ∧
-    typeInstanceW w (.typeObj tid) cls = (w.put tid (instanceOf w.slots t cls).1, (instanceOf w.slots t cls).2) ∧
-    (typeMethodAtW w (.typeObj tid) cls k).2 = (methodAt w.slots t cls k).2 := by
-  refine ⟨rfl, rfl, rfl, by simp [typeInstanceW, hget], ?_⟩
-  have hs : w.isSentinel tid = t.sentinel := by simp [World.isSentinel, hget]
-  simp only [typeMethodAtW, typeInstanceW, hget, methodAt, hs]
-  rcases instanceOf w.slots t cls with ⟨t1, o⟩
-  cases o with
-  | ok r =>
-    cases r with
-    | none => rfl
-    | some inst => simp only; cases memberAt inst k with
-      | ok b => cases b <;> rfl
-      | raised e => rfl
-      | ub => rfl
-  | raised e => rfl
-  | ub => rfl
+    implementsMethodAtW w (.obj .good tid) cls k = typeImplementsMethodAtW w (.typeObj tid) cls k := ⟨rfl, rfl, rfl⟩
 
 /-- **The small-step machine refines the sequential model.** Run alone, from any state of any type object (no invariant
     needed), the sequence of atomic steps of one lookup ends — within `2·n + 8` steps — in exactly the state and the result
